@@ -948,7 +948,12 @@ impl VM {
             return Ok(());
         }
         Err(Error::new(
-            format!("Invalid selector index: {:?} target: {:?}", right, left).into(),
+            format!(
+                "Invalid selector index: {:?} target: {}",
+                right,
+                left.type_name()
+            )
+            .into(),
             pos,
         ))
     }
